@@ -29,6 +29,8 @@ func (nopLogger) Debug(string, ...any) {}
 
 // TaskSpec is one task of a generated cache-model program.
 type TaskSpec struct {
+	// IdentsFirst: the task dependencies are written in front of the file dependencies
+	IdentsFirst bool `json:"idents_first,omitempty"`
 	Name  string   `json:"name"`
 	Files []string `json:"files,omitempty"` // literal file dependencies (relative)
 	Globs []string `json:"globs,omitempty"`
@@ -93,7 +95,11 @@ func (c CacheCase) Source() string {
 		for _, g := range t.Globs {
 			args = append(args, `"`+g+`"`)
 		}
-		args = append(args, t.Deps...)
+		if t.IdentsFirst {
+			args = append(append([]string(nil), t.Deps...), args...)
+		} else {
+			args = append(args, t.Deps...)
+		}
 		fmt.Fprintf(&b, "task %s(%s) {\n", t.Name, strings.Join(args, ", "))
 		for i := 0; i < t.NCmds; i++ {
 			fmt.Fprintf(&b, "    run %s %d\n", t.Name, i)
